@@ -33,7 +33,15 @@ CFG = {
             "white space/comments) + n single-step deviations (operator replaced/inserted/dropped, operand dropped/added/replaced/rotated, "
             "text-showing operator with arbitrary operands) + n raw streams (a deviated stream truncated or with one byte damaged; "
             "correspondence only, oracle skips). Oracle = Fig9.expected on the syntax tree carried by the case (checked: tree well-formed "
-            "and renders to exactly the stream). non-trivial = structured case with >= 2 operator instances",
+            "and renders to exactly the stream). "
+            "VIEW TWINS (Driver/Views.lean, corpus views.case): EVERY case above (table, walk, dev, raw) runs a second time as `vw <steps> <pre> <suf> <case>` - the stream is a window strictly inside ONE larger allocation "
+            "pre ++ window ++ suf, selected by a chain of RestrictView / RestrictViewFrom steps (the harness checks that the view shows exactly the window), and TextExtractor::parse runs on that view (the extractor's buffer); "
+            "bytes in front of the window cycled over 1, 7, 11, 2, 0, 13, 1000, 64, 5, 3 of them (header-like text with complete objects, or random bytes; period 16) x chain of restrictions (RestrictView; RestrictViewFrom; From then View; View then View with junk on both sides of the inner window; View then From; a View from 0 then From; three deep; period 7) x what lies behind the window (period 5). The extractor's output carries no offsets, so the unchanged code answers exactly what it answers on the plain case; model and oracle are computed from the window's bytes alone (model of a view = model of its "
+            "window: Parsley.C17.view_refines_copy); classes of rejected view cases carry the prefix `view-`. What lies behind the window continues the stream: behind a truncated stream the rest of it, otherwise more operands and "
+            "text-showing operators (` (more) Tj`, `) Tj ET`, `j`, `*`, `] TJ`, a whole text object); one random structured case in five gets a further twin whose window ENDS AFTER AN EARLIER INSTRUCTION (expected: Fig9.expected of that shorter "
+            "program; the remaining instructions lie behind the view). CUT family (view only): a fixed text-heavy program + 7 (thorough 59) random walks over known operators, cut at EVERY byte, the rest behind the window: the extractor must "
+            "answer err or tokens that are a prefix of Fig9.expected of the whole program (`cut-unsound`). Per tier: quick 8940 ordinary + 9390 view twins + 645 cuts, thorough 184440 + 202958 + 4710. "
+            "non-trivial = structured case with >= 2 operator instances (a view case counts when there are bytes in front of or behind the window)",
     "trusted_base": COMMON_TB + [
         "harness c12 extract: serialisation of the real OPERATORS const into Parsley/Gen/Operators.lean (name bytes, Debug names of OpType/ArgType)",
         "Spec/Fig9.lean: transcription of ISO 32000-1 Table 51, Figure 9 (BX/EX permitted at page level and in text objects; d0/d1 nowhere) and Table 109",
